@@ -125,6 +125,9 @@ def train_steps(nas, xs, k, seed, lr=0.05):
         c = nas.get_cost(next(iter(nas._cost_specification))) if isinstance(
             nas._cost_specification, dict) else nas.cost
         loss = y.pow(2).mean() + 1e-4 * c
+        if not loss.requires_grad:
+            # (a frozen group + a non-differentiable selection: nothing to step on - same for a twin)
+            continue
         opt.zero_grad()
         loss.backward()
         opt.step()
